@@ -51,3 +51,13 @@ Qed.
 
 Lemma gen_delta_class_l : delta_class_for_every_scale = true /\ four_delta_formats = true.
 Proof. vm_compute. split; reflexivity. Qed.
+
+(* TimeDeltaArray.__neg__ as read from the source is the specification's negation on all durations
+   (or absent: then ndarray.__neg__ is inherited, the listed quirk q_neg_keeps_jds) *)
+Lemma gen_neg_is_model_l :
+  gen_neg = NegAbsent \/
+  exists oc, gen_neg = NegBody oc /\ forall d, oequiv (run_unary oc d) (Some (neg d)).
+Proof.
+  first [ left; apply neg_classified4; vm_compute; reflexivity
+        | right; apply neg_classified0; vm_compute; reflexivity ].
+Qed.
